@@ -4,6 +4,14 @@ package sim
 // keeps the same signature.  It never consults an Rng: candidates are derived
 // from the script alone, so minimisation is itself reproducible.
 func Minimize(e Engine, s *Script, sig string, budget int) *Script {
+	return MinimizeWith(s, budget, func(c *Script) bool {
+		r := e.Exec(c, false)
+		return r.Violation != nil && r.Violation.Signature == sig
+	})
+}
+
+// MinimizeWith is Minimize with an arbitrary "still fails the same way" test.
+func MinimizeWith(s *Script, budget int, test func(c *Script) bool) *Script {
 	best := s.Clone()
 	execs := 0
 	fails := func(c *Script) bool {
@@ -11,8 +19,7 @@ func Minimize(e Engine, s *Script, sig string, budget int) *Script {
 			return false
 		}
 		execs++
-		r := e.Exec(c, false)
-		return r.Violation != nil && r.Violation.Signature == sig
+		return test(c)
 	}
 	for round := 0; round < 6; round++ {
 		before := best.NSteps()*1000 + len(best.Schedule) + argWeight(best)
